@@ -337,6 +337,12 @@ def run(ctx: Ctx, tier: str) -> Result:
     stops = [c for c in t.calls_in(lps) if any(f.qname == "deep.utils.RepeatedTimer.stop" for f in t.resolve_call(c, lps).repo)]
     extra_ = [(norm(c), pol) for c, pol in paths.conditions(p, stops[0], lps)] if stops else []
     extra_ = [x for x in extra_ if x not in (("self.timer", True), ("self.timer is not None", True), ("self.timer is None", False))]
+    if stops and isinstance(stops[0].func, ast.Attribute) and isinstance(stops[0].func.value, ast.Name):
+        # the timer read into a local first: a test of that local is the same test
+        rn_ = stops[0].func.value.id
+        lb_ = t.local_bindings(lps, rn_)
+        if len(lb_) == 1 and lb_[0][0] == "assign" and lb_[0][1][1] is not None and norm(lb_[0][1][1]) == "self.timer":
+            extra_ = [x for x in extra_ if x not in ((rn_, True), ("%s is not None" % rn_, True), ("%s is None" % rn_, False))]
     if stops and extra_:
         res.fail(Finding("C14.E", lps.qname, stops[0], lps.loc(stops[0]), "the poll timer is only stopped when `%s`: polling goes on after shutdown" % extra_[0][0][:60]))
     elif stops:
